@@ -31,6 +31,7 @@ func main() {
 	tier := flag.String("tier", "quick", "quick|thorough")
 	repo := flag.String("repo", "/repo", "repository to analyse")
 	verif := flag.String("verif", "", "verif directory (default: parent of the binary's directory)")
+	out := flag.String("out", "", "directory for evidence and replay files (default <verif>/evidence)")
 	ver := flag.Bool("version", false, "print version")
 	list := flag.Bool("list", false, "list properties with rules built")
 	flag.Parse()
@@ -61,7 +62,10 @@ func main() {
 	if s := os.Getenv("VERIF_SEED"); s != "" {
 		seed, _ = strconv.ParseInt(s, 10, 64)
 	}
-	c := &Ctx{Prop: *prop, Tier: *tier, Seed: seed, Repo: *repo, Verif: *verif,
+	if *out == "" {
+		*out = filepath.Join(*verif, "evidence")
+	}
+	c := &Ctx{Out: *out, Prop: *prop, Tier: *tier, Seed: seed, Repo: *repo, Verif: *verif,
 		keyCount: map[string]int{}, notes: map[string]interface{}{}, t0: time.Now()}
 	defer func() {
 		if r := recover(); r != nil {
